@@ -303,6 +303,9 @@ func runInterrupts(t *kernel.Tape, opt core.Opts, only string) *core.Outcome {
 						total += n
 					}
 				}
+				if len(st.Roles) != 2 || st.Roles["user"] != 1 || st.Roles["a b\"c"] != 2 {
+					viol("C05/state-lost-in-round-trip", fmt.Sprintf("the state's map keyed by a named string type came back as %v", st.Roles))
+				}
 				if st.N != total {
 					viol("C05/state-lost-in-round-trip", fmt.Sprintf("%d handler/ProcessState invocations touched the top-level state across %d calls, the final counter is %d", total, len(calls), st.N))
 				}
@@ -573,6 +576,11 @@ func checkC06(viol func(string, string), p *Plan, path string, env *Env, calls [
 			}
 		}
 		for _, y := range info.AfterNodes {
+			// a node reported as an interrupt-after point has completed: it cannot at the same time
+			// be reported as interrupted itself (asked for a re-run, or interrupted inside)
+			if inSet(info.RerunNodes, y) || info.SubGraphs[y] != nil {
+				viol("C06/wrong-interrupt-info", fmt.Sprintf("call %d reports node %s of graph %q both as a completed interrupt-after node and as interrupted itself (rerun=%v, nested=%v)", k, y, path, inSet(info.RerunNodes, y), info.SubGraphs[y] != nil))
+			}
 			if !inSet(p.IntAfter, y) {
 				viol("C06/wrong-interrupt-info", fmt.Sprintf("call %d reports %s as interrupt-after node of graph %q, it is not configured as one", k, y, path))
 			}
@@ -620,7 +628,7 @@ func init() {
 	core.Register(&core.Profile{
 		ID: "C05", Engine: "graphsim", Quick: 1500, Thorough: 40000, ThoroughSeeds: 3,
 		Run:  func(t *kernel.Tape, o core.Opts) *core.Outcome { return runInterrupts(t, o, "C05") },
-		Rule: "each run draws a plan in any mode, interrupt-before/after sets at every nesting level, nodes that answer InterruptAndRerun on their first 1-2 attempts (their pre-handler rebuilds the input from state), a paradigm per call, and one schedule; the history is: call with a checkpoint id, on interrupt throw the runnable away, compile the plan again, resume through a store that keeps only bytes, until the run completes; oracle: final output, multiset of non-aborted executions and the state counter equal the uninterrupted run of the same plan (reference model), bounded number of calls; 2 in 5 histories carry a typed nil pointer in an interface-typed slot of the input; nested-graph nodes have state handlers; the history may not make more handler/ProcessState invocations than the uninterrupted run; 1 in 12 histories types some outputs as any (known finding); half of the histories keep the compiled object between the calls, and after the first interrupt a fresh run under another checkpoint id is started on it (must behave like the first call; compared in full for pure Pregel plans)",
+		Rule: "each run draws a plan in any mode, interrupt-before/after sets at every nesting level, nodes that answer InterruptAndRerun on their first 1-2 attempts (their pre-handler rebuilds the input from state), a paradigm per call, and one schedule; the history is: call with a checkpoint id, on interrupt throw the runnable away, compile the plan again, resume through a store that keeps only bytes, until the run completes; oracle: final output, multiset of non-aborted executions and the state counter equal the uninterrupted run of the same plan (reference model), bounded number of calls; 2 in 5 histories carry a typed nil pointer in an interface-typed slot of the input; nested-graph nodes have state handlers; the history may not make more handler/ProcessState invocations than the uninterrupted run; 1 in 12 histories types some outputs as any (known finding); half of the histories keep the compiled object between the calls, and after the first interrupt a fresh run under another checkpoint id is started on it (must behave like the first call; compared in full for pure Pregel plans); the state carries a map keyed by a named string type",
 		Real: append([]string{"internal/serialization (checkpoint bytes)"}, graphReal...), Stub: append([]string{"checkpoint store (in-memory byte map)"}, graphStub...),
 		Faults: []string{"interrupt before", "interrupt after", "interrupt and rerun", "nested interrupt", "repeated interrupts", "restart with only durable bytes", "paradigm change across resume"},
 	})
